@@ -272,6 +272,6 @@ def jobs(tier):
             FIXED['fixed:%d' % k] = t
             J.append(dict(harness=('c04', 'h_sequential'), params=dict(N=2, fam_b='fixed:%d' % k, fam_c='valid'),
                           timeout_s=120, label='split720:h_sequential[b=table %d, c=valid]' % k))
-        J.append(dict(harness=('c04', 'h_inverse'), params=dict(N=3), timeout_s=900, claimed=False,
+        J.append(dict(harness=('c04', 'h_inverse'), params=dict(N=3), timeout_s=300, wall_s=1500, claimed=False,
                       label='stretch:h_inverse{"N": 3}', cost=100))
     return J
